@@ -5,5 +5,5 @@ D=$(mktemp -d /tmp/mut_XXXX)
 cp -r /repo/c $D/c; cp -r /repo/python $D/python
 if [ "$S" != "none" ]; then (cd $D && patch -p1 -s < /verif/seeded/$S/patch.diff) || { echo PATCH-FAIL; rm -rf $D; exit 2; }; fi
 (cd $D/python && /venv/bin/python setup.py -q build_ext --inplace -j 8 >/dev/null 2>&1)
-(cd $D/python && PYTHONPATH=$D/python:/verif timeout 1200 /venv/bin/python -m $M "$@" 2>&1 | tail -3 | cut -c1-1800)
+(cd $D/python && PYTHONPATH=$D/python:/verif timeout 1200 /venv/bin/python -m $M "$@" 2>&1 | tail -25 | python3 /verif/tools/summ.py)
 rm -rf $D
